@@ -58,7 +58,10 @@ def simple_family(draw, max_calls=3, with_metrics=None):
     if with_metrics:
         for a in axes:
             vs = []
-            for p in a["positions"]:
+            # metrics at every position, or (so that a metric has to be interpolated to the array's position) at some only
+            subset = a["positions"] if draw(st.booleans()) else sorted(
+                draw(st.sets(st.sampled_from(a["positions"]), min_size=1)), key=a["positions"].index)
+            for p in subset:
                 d = dtok(a["name"], p)
                 vars_["M_" + d] = {"dims": [d], "values": draw(st.lists(metric_vals, min_size=dims[d], max_size=dims[d]))}
                 vs.append("M_" + d)
@@ -353,41 +356,41 @@ def any_family(max_calls=3):
 
 
 def tokens_of(sc):
-    """All identifier tokens of a scenario (for renaming)."""
-    toks = []
+    """All identifier tokens of a scenario with their namespace: {token: 'axis' | 'ds' | 'dummy'}."""
+    toks = {}
 
-    def add(t):
+    def add(t, space):
         if isinstance(t, str) and t not in toks:
-            toks.append(t)
+            toks[t] = space
 
     for d in sc["dims"]:
-        add(d)
+        add(d, "ds")
     for v in sc.get("vars", {}):
-        add(v)
+        add(v, "ds")
     g = sc.get("grid") or {}
     for a in (g.get("coords") or {}):
-        add(a)
+        add(a, "axis")
     if g.get("face_connections"):
-        add(g["face_connections"]["dim"])
+        add(g["face_connections"]["dim"], "ds")
     for spec in sc.get("coords", {}).values():
         for v in spec.get("attrs", {}).values():
             if isinstance(v, dict) and "tok" in v:
-                add(v["tok"])
+                add(v["tok"], "axis")
     for a in sc.get("arrays", {}).values():
-        add(a.get("name"))
+        add(a.get("name"), "ds")
     for c in sc["calls"]:
         if c["fn"] == "ufunc":
             for arg in c["sig"]["in"] + c["sig"]["out"]:
                 for d, _ in arg:
-                    add(d)
+                    add(d, "dummy")
         if c["fn"] == "equivalent":
             for s in (c["a"], c["b"]):
                 for arg in s["in"] + s["out"]:
                     for d, _ in arg:
-                        add(d)
+                        add(d, "dummy")
         if c["fn"] == "transform":
-            add(c.get("target_dim"))
+            add(c.get("target_dim"), "ds")
             if isinstance(c.get("target"), dict):
                 for d in c["target"]["dims"]:
-                    add(d)
+                    add(d, "ds")
     return toks
